@@ -7,6 +7,8 @@ not about a function in /repo: it is decided only by the bounded differential (g
 """
 from __future__ import annotations
 
+from contracts.c05_solve import SolverDefaults
+
 import itertools
 import math
 import random
@@ -225,7 +227,7 @@ FortranDifferential.run = _run_and_clean
 
 PROPERTY = PropertySpec(
     id='C07',
-    contracts=list(WRAPPER_CONTRACTS),
+    contracts=list(WRAPPER_CONTRACTS) + [SolverDefaults()],
     bounded=[FortranDifferential()],
     level='other',
     explanation='FortranEngine.solve_t, _evaluate and solve (two-period range of a four-period span) are executed symbolically from source against an assumed contract of the compiled ENGINE: the period is passed '
